@@ -569,4 +569,269 @@ theorem addKeys_perm_dedup (tags : List Str) : (addKeys [] tags).Perm (dedup tag
   (List.perm_ext_iff_of_nodup (addKeys_nodup tags [] List.nodup_nil) (nodup_dedup tags)).mpr
     (fun a => by rw [addKeys_mem, mem_dedup]; simp)
 
+/-! ## The maps of `FieldDimensions` against the concatenated schema -/
+
+/-- `FieldDimensions` folds the concatenated schema into its two maps. -/
+theorem fieldDimensionsFrom_eq (m : FieldMapper) : ∀ (srcs : List Source) (f : TypeMap) (d : StrSet),
+    fieldDimensionsFrom m srcs f d =
+      match sourceSchema m srcs with
+      | .error e => .error e
+      | .ok (cols, tags) => .ok (mergeCols f cols, addKeys d tags)
+  | [], f, d => rfl
+  | .measurement ms :: rest, f, d => by
+    unfold fieldDimensionsFrom sourceSchema
+    cases hfd : m.fieldDimensions ms with
+    | error e => rfl
+    | ok fd =>
+      obtain ⟨fc, dc⟩ := fd
+      simp only
+      rw [fieldDimensionsFrom_eq m rest]
+      cases hs : sourceSchema m rest with
+      | error e => rfl
+      | ok cs =>
+        obtain ⟨cols, tags⟩ := cs
+        simp only [mergeCols_append, addKeys_append]
+  | .subquery st :: rest, f, d => by
+    unfold fieldDimensionsFrom sourceSchema
+    rw [fieldDimensionsFrom_eq m rest]
+    cases hs : sourceSchema m rest with
+    | error e => rfl
+    | ok cs =>
+      obtain ⟨cols, tags⟩ := cs
+      simp only [mergeCols_append, addKeys_append]
+
+theorem nodup_of_map {α β} (f : α → β) {l : List α} (h : (l.map f).Nodup) : l.Nodup :=
+  List.Pairwise.of_map f (fun _ _ hab e => hab (by rw [e])) h
+
+theorem colType_eq (cols : List (Str × DataType)) (n : Str) :
+    colType cols n = (mergeCols [] cols).get n := by
+  rw [mergeCols_get]; rfl
+
+/-- The field map `FieldDimensions` builds lists, in some order, exactly the specified field columns. -/
+theorem fieldSet_perm_spec (cols : List (Str × DataType)) :
+    ((mergeCols [] cols).map (fun kt => (⟨kt.1, kt.2⟩ : ColRef))).Perm (specFieldCols cols) := by
+  have hnd : (keysOf (mergeCols [] cols)).Nodup := mergeCols_nodup cols [] List.nodup_nil
+  have h1 : ((mergeCols [] cols).map (fun kt => (⟨kt.1, kt.2⟩ : ColRef))).Nodup := by
+    apply nodup_of_map (fun r : ColRef => r.name)
+    rw [List.map_map]
+    exact hnd
+  have h2 : (specFieldCols cols).Nodup := by
+    apply nodup_of_map (fun r : ColRef => r.name)
+    unfold specFieldCols
+    rw [List.map_map]
+    have : ((fun r : ColRef => r.name) ∘ fun n => (⟨n, colType cols n⟩ : ColRef)) = id := rfl
+    rw [this, List.map_id]
+    exact nodup_dedup _
+  rw [List.perm_ext_iff_of_nodup h1 h2]
+  intro r
+  obtain ⟨n, t⟩ := r
+  constructor
+  · intro h
+    rw [List.mem_map] at h
+    obtain ⟨⟨k, t'⟩, hm, he⟩ := h
+    simp only [ColRef.mk.injEq] at he
+    obtain ⟨rfl, rfl⟩ := he
+    rw [TypeMap.mem_iff hnd] at hm
+    unfold specFieldCols
+    rw [List.mem_map]
+    refine ⟨k, ?_, ?_⟩
+    · rw [mem_dedup]
+      have := (mergeCols_mem_keys cols [] k).mp hm.1
+      simpa [keysOf] using this
+    · rw [colType_eq, hm.2]
+  · intro h
+    unfold specFieldCols at h
+    rw [List.mem_map] at h
+    obtain ⟨k, hk, he⟩ := h
+    simp only [ColRef.mk.injEq] at he
+    obtain ⟨rfl, rfl⟩ := he
+    rw [mem_dedup] at hk
+    rw [List.mem_map]
+    refine ⟨(k, colType cols k), ?_, rfl⟩
+    rw [TypeMap.mem_iff hnd]
+    exact ⟨(mergeCols_mem_keys cols [] k).mpr (Or.inr hk), (colType_eq cols k).symm⟩
+
+theorem specFieldCols_eq_nil_iff (cols : List (Str × DataType)) :
+    specFieldCols cols = [] ↔ (mergeCols [] cols).length = 0 := by
+  have h := (fieldSet_perm_spec cols).length_eq
+  rw [List.length_map] at h
+  rw [h]
+  exact List.length_eq_zero_iff.symm
+
+/-- The slice `fields` of `RewriteFields` is the specified expansion. -/
+theorem wildcardRefs_eq_spec (cols : List (Str × DataType)) (tags : List Str) (dims : List Expr) (hasDW : Bool) :
+    wildcardRefs (mergeCols [] cols)
+      (if !hasDW then delDimRefs (addKeys [] tags) dims else addKeys [] tags) hasDW =
+    expandSpec cols tags dims hasDW := by
+  unfold wildcardRefs expandSpec
+  by_cases hz : (mergeCols [] cols).length = 0
+  · rw [if_neg (by omega), if_pos ((specFieldCols_eq_nil_iff cols).mpr hz)]
+  · rw [if_pos (by omega), if_neg (fun h => hz ((specFieldCols_eq_nil_iff cols).mp h))]
+    apply sortRefs_eq_of_perm
+    apply List.Perm.append (fieldSet_perm_spec cols)
+    cases hasDW
+    · simp only [Bool.not_false, ↓reduceIte, Bool.false_eq_true]
+      unfold specTagCols
+      apply List.Perm.map
+      rw [delDimRefs_eq]
+      exact (addKeys_perm_dedup tags).filter _
+    · simp
+
+/-- The slice `dimensions` of `RewriteFields`, when GROUP BY has a wildcard. -/
+theorem wildcardDims_eq_spec (f : TypeMap) (tags : List Str) :
+    wildcardDims f (addKeys [] tags) true = dimSpec tags := by
+  unfold wildcardDims dimSpec
+  rw [if_neg (by simp)]
+  exact sortStrs_eq_of_perm (addKeys_perm_dedup tags)
+
+/-- The mirror of `RewriteFields` computes what the declarative specification says. -/
+theorem rewriteBody_eq_specBody (m : FieldMapper) (re : Str → Str → Bool) :
+    rewriteBody m re = specBody m re := by
+  funext fields dims sources cond
+  unfold rewriteBody specBody
+  simp only
+  split
+  · rfl
+  · unfold fieldDimensions
+    rw [fieldDimensionsFrom_eq]
+    cases hs : sourceSchema m sources with
+    | error e => rfl
+    | ok cs =>
+      obtain ⟨cols, tags⟩ := cs
+      simp only
+      rw [wildcardRefs_eq_spec]
+      cases hdw : hasDimensionWildcard dims
+      · simp
+      · simp only [Bool.not_true, Bool.false_eq_true, ↓reduceIte]
+        rw [wildcardDims_eq_spec]
+
+/-! ## The specification does not see the order of the schema lists -/
+
+/-- Two mappers that agree except for the order in which `FieldDimensions` lists the field
+columns and the tag keys of a measurement (the iteration order of the two Go maps). -/
+structure MapperPerm (m m' : FieldMapper) : Prop where
+  types : m.toTypeMapper = m'.toTypeMapper
+  cols : ∀ ms,
+    match m.fieldDimensions ms, m'.fieldDimensions ms with
+    | .ok (f, d), .ok (f', d') => f.Perm f' ∧ d.Perm d'
+    | .error e, .error e' => e = e'
+    | _, _ => False
+
+theorem sourceSchema_perm {m m' : FieldMapper} (h : MapperPerm m m') : ∀ srcs : List Source,
+    match sourceSchema m srcs, sourceSchema m' srcs with
+    | .ok (c, t), .ok (c', t') => c.Perm c' ∧ t.Perm t'
+    | .error e, .error e' => e = e'
+    | _, _ => False
+  | [] => ⟨List.Perm.refl _, List.Perm.refl _⟩
+  | .measurement ms :: rest => by
+    have hc := h.cols ms
+    have ih := sourceSchema_perm h rest
+    unfold sourceSchema
+    cases h1 : m.fieldDimensions ms with
+    | error e =>
+      cases h2 : m'.fieldDimensions ms with
+      | error e' => rw [h1, h2] at hc; exact hc
+      | ok fd' => rw [h1, h2] at hc; exact hc.elim
+    | ok fd =>
+      cases h2 : m'.fieldDimensions ms with
+      | error e' => rw [h1, h2] at hc; exact hc.elim
+      | ok fd' =>
+        rw [h1, h2] at hc
+        obtain ⟨f, d⟩ := fd
+        obtain ⟨f', d'⟩ := fd'
+        simp only at hc ⊢
+        cases h3 : sourceSchema m rest with
+        | error e =>
+          cases h4 : sourceSchema m' rest with
+          | error e' => rw [h3, h4] at ih; exact ih
+          | ok cs' => rw [h3, h4] at ih; exact ih.elim
+        | ok cs =>
+          cases h4 : sourceSchema m' rest with
+          | error e' => rw [h3, h4] at ih; exact ih.elim
+          | ok cs' =>
+            rw [h3, h4] at ih
+            obtain ⟨c, t⟩ := cs
+            obtain ⟨c', t'⟩ := cs'
+            simp only at ih ⊢
+            exact ⟨hc.1.append ih.1, hc.2.append ih.2⟩
+  | .subquery st :: rest => by
+    have ih := sourceSchema_perm h rest
+    unfold sourceSchema
+    rw [h.types]
+    cases h3 : sourceSchema m rest with
+    | error e =>
+      cases h4 : sourceSchema m' rest with
+      | error e' => rw [h3, h4] at ih; exact ih
+      | ok cs' => rw [h3, h4] at ih; exact ih.elim
+    | ok cs =>
+      cases h4 : sourceSchema m' rest with
+      | error e' => rw [h3, h4] at ih; exact ih.elim
+      | ok cs' =>
+        rw [h3, h4] at ih
+        obtain ⟨c, t⟩ := cs
+        obtain ⟨c', t'⟩ := cs'
+        simp only at ih ⊢
+        exact ⟨ih.1.append_left _, ih.2.append_left _⟩
+
+theorem colType_perm {cols cols' : List (Str × DataType)} (h : cols.Perm cols') (n : Str) :
+    colType cols n = colType cols' n := by
+  unfold colType
+  exact foldl_raiseTo_perm ((h.filter _).map _) _
+
+theorem specFieldCols_perm {cols cols' : List (Str × DataType)} (h : cols.Perm cols') :
+    (specFieldCols cols).Perm (specFieldCols cols') := by
+  unfold specFieldCols
+  have hf : (fun n => (⟨n, colType cols n⟩ : ColRef)) = (fun n => ⟨n, colType cols' n⟩) := by
+    funext n; rw [colType_perm h]
+  rw [hf]
+  exact (dedup_perm (h.map _)).map _
+
+theorem specTagCols_perm {tags tags' : List Str} (h : tags.Perm tags') (dims : List Expr) :
+    (specTagCols tags dims).Perm (specTagCols tags' dims) := by
+  unfold specTagCols
+  exact ((dedup_perm h).filter _).map _
+
+theorem expandSpec_perm {cols cols' : List (Str × DataType)} {tags tags' : List Str}
+    (hc : cols.Perm cols') (ht : tags.Perm tags') (dims : List Expr) (hasDW : Bool) :
+    expandSpec cols tags dims hasDW = expandSpec cols' tags' dims hasDW := by
+  unfold expandSpec
+  have hp := specFieldCols_perm hc
+  have hnil : specFieldCols cols = [] ↔ specFieldCols cols' = [] := by
+    rw [← List.length_eq_zero_iff, ← List.length_eq_zero_iff, hp.length_eq]
+  by_cases hz : specFieldCols cols = []
+  · rw [if_pos hz, if_pos (hnil.mp hz)]
+  · rw [if_neg hz, if_neg (fun e => hz (hnil.mpr e))]
+    apply sortRefs_eq_of_perm
+    apply hp.append
+    cases hasDW
+    · exact specTagCols_perm ht dims
+    · exact List.Perm.refl _
+
+theorem dimSpec_perm {tags tags' : List Str} (h : tags.Perm tags') : dimSpec tags = dimSpec tags' :=
+  sortStrs_eq_of_perm (dedup_perm h)
+
+theorem specBody_perm {m m' : FieldMapper} (h : MapperPerm m m') (re : Str → Str → Bool) :
+    specBody m re = specBody m' re := by
+  funext fields dims sources cond
+  unfold specBody
+  rw [h.types]
+  simp only
+  split
+  · rfl
+  · have hs := sourceSchema_perm h sources
+    cases h1 : sourceSchema m sources with
+    | error e =>
+      cases h2 : sourceSchema m' sources with
+      | error e' => rw [h1, h2] at hs; simp only at hs ⊢; rw [hs]
+      | ok cs' => rw [h1, h2] at hs; exact hs.elim
+    | ok cs =>
+      cases h2 : sourceSchema m' sources with
+      | error e' => rw [h1, h2] at hs; exact hs.elim
+      | ok cs' =>
+        rw [h1, h2] at hs
+        obtain ⟨c, t⟩ := cs
+        obtain ⟨c', t'⟩ := cs'
+        simp only at hs ⊢
+        rw [expandSpec_perm hs.1 hs.2, dimSpec_perm hs.2]
+
 end InfluxQL
